@@ -638,3 +638,17 @@ func ReturnValues(r *ssa.Return, idx int) []ssa.Value {
 	}
 	return []ssa.Value{v}
 }
+
+// SamePath: a and b denote the same access path (same variable, or the same chain of field
+// loads from the same variable).
+func SamePath(a, b ssa.Value) bool {
+	if SameVar(a, b) {
+		return true
+	}
+	t1, f1, b1, ok1 := FieldOf(a)
+	t2, f2, b2, ok2 := FieldOf(b)
+	if ok1 && ok2 && t1 == t2 && f1 == f2 {
+		return SamePath(b1, b2)
+	}
+	return false
+}
